@@ -202,8 +202,9 @@ def main(argv):
         "property_id": prop, "tier": tier, "seed": seed, "level": meta["level"], "coverage": cov,
         "assumptions": meta.get("assumptions", []), "wall_s": round(wall, 2), "violations": len(unknown),
     }
-    os.makedirs(os.path.join(ROOT, "evidence"), exist_ok=True)
-    with open(os.path.join(ROOT, "evidence", f"{prop}.json"), "w") as f:
+    evdir = os.environ.get("VF_EVIDENCE_DIR") or os.path.join(ROOT, "evidence")     # scratch runs (seeded changes, mutants) write elsewhere
+    os.makedirs(evdir, exist_ok=True)
+    with open(os.path.join(evdir, f"{prop}.json"), "w") as f:
         json.dump(ev, f, indent=1, default=str)
         f.write("\n")
 
